@@ -159,6 +159,16 @@ def gen_C05(rng, tier):
                 spec["start"] = {"after_steps": rng.randint(0, 120)}
         scn["procs"].append(spec)
     maybe_trace(rng, scn, 0.4)
+    # a second user thread of a process submits a configuration that the main thread submits too
+    # ("several schedulers (threads or processes) submit the same job concurrently"); only where
+    # nothing fails, so that every submission of it is a duplicate of a live job
+    r2 = random.Random(repr(rng.getstate()[1][:4]))
+    roots = [x for x, t in enumerate(scn["tasks"]) if not t.get("deps")]
+    if r2.random() < 0.25 and roots and all((t.get("out") or ["ok"]) == ["ok"] for t in scn["tasks"]):
+        for spec in scn["procs"]:
+            if r2.random() < 0.7:
+                for _ in range(r2.randint(1, 2)):
+                    spec["plan"].insert(r2.randint(0, len(spec["plan"]) - 1), ["par", r2.choice(roots)])
     return scn
 
 
